@@ -82,6 +82,10 @@ pub fn run(cfg: &RunCfg) -> Ctx {
     all.merge(par_cases(cfg, "matrix", n * reps, || (), move |_, rng, ctx, i| case(rng, ctx, mm[(i % n) as usize], i / n)));
     all.merge(par_cases(cfg, "https-without-tls", 6, || (), |_, rng, ctx, i| no_tls_case(rng, ctx, i)));
     all.merge(par_cases(cfg, "client-ca-without-certificate", 24, || (), |_, rng, ctx, i| bad_client_ca_case(rng, ctx, i)));
+    all.merge(par_cases(cfg, "peers", cfg.n(60, 16 * 400), || (), |_, rng, ctx, _| peers_case(rng, ctx, false)));
+    for k in ["peers.seen.none", "peers.seen.client1", "peers.seen.client3-chain"] {
+        all.floor(k, 5);
+    }
     all.add("matrix.size", n);
     for k in ["expect.success", "expect.fail.chain", "expect.fail.name", "expect.fail.alpn", "expect.fail.client_auth", "observed.handshake_records", "observed.peer_certs_some", "observed.peer_certs_none"] {
         all.floor(k, 5);
@@ -546,4 +550,144 @@ fn bad_client_ca_case(rng: &mut Rng, ctx: &mut Ctx, i: u64) {
         }
     }
     ctx.fingerprint(format!("badca|{}|{}|{}", vname, optional as u8, ca_first as u8), true);
+}
+
+/// Several peers with different TLS identities on ONE server (client authentication optional):
+/// every handler sees the verified chain of its own connection, whatever connected before it and
+/// whether or not the earlier connections are still open.  With `with_shutdown` a further peer has
+/// opened a transport connection and never starts its TLS handshake (a load balancer's TCP health
+/// probe); the server is then told to shut down gracefully: the serve future has to resolve once
+/// the accepted connections have closed — such a peer was never accepted as a connection.
+pub fn peers_case(rng: &mut Rng, ctx: &mut Ctx, with_shutdown: bool) {
+    // (identity, certificates the handler must see)
+    let kinds: [(&str, Option<usize>); 3] = [("none", None), ("client1", Some(1)), ("client3-chain", Some(2))];
+    let mut order: Vec<usize> = vec![0, 1, 2];
+    rng.shuffle(&mut order);
+    let n = rng.urange(2, 3);
+    order.truncate(n);
+    let keep_open: Vec<bool> = (0..n).map(|_| rng.bool()).collect();
+    let stalled_at: Option<usize> = if with_shutdown { Some(rng.urange(0, n)) } else { None };
+    let case_json = json!({"peers_in_order": order.iter().map(|&k| kinds[k].0).collect::<Vec<_>>(), "earlier_connections_kept_open": keep_open,
+        "silent_transport_connection_before_peer": stalled_at, "graceful_shutdown_at_the_end": with_shutdown});
+    ctx.begin(if with_shutdown { "peers-then-shutdown" } else { "peers" }, case_json.clone());
+    let pcfg = if rng.bool() { PipeCfg::plain() } else { PipeCfg::gen(rng) };
+    let seed = rng.u64();
+    let rt = paused_rt();
+    let handler = Handler::new();
+    let h2 = handler.clone();
+    let order2 = order.clone();
+    let keep_open2 = keep_open.clone();
+    let result: Result<Vec<Result<(), String>>, String> = rt.block_on(async move {
+        let keep_open = keep_open2;
+        let (raw_tx, raw_rx) = mpsc::unbounded_channel::<Result<PipeEnd, std::io::Error>>();
+        let tls = ServerTlsConfig::new().identity(Identity::from_pem(SERVER_PEM, SERVER_KEY)).client_ca_root(Certificate::from_pem(CCA1)).client_auth_optional(true);
+        let mut sb = Server::builder().tls_config(tls).map_err(|e| format!("server tls_config: {}", e))?;
+        let router = sb.add_service(VerifServer::new(h2));
+        let (sig_tx, sig_rx) = tokio::sync::oneshot::channel::<()>();
+        let mut server_task = tokio::spawn(async move {
+            let _ = router
+                .serve_with_incoming_shutdown(crate::props::c14::Incoming(raw_rx), async move {
+                    let _ = sig_rx.await;
+                })
+                .await;
+        });
+        let mut silent: Vec<PipeEnd> = Vec::new();
+        let mut open: Vec<VerifClient<tonic::transport::Channel>> = Vec::new();
+        let mut results: Vec<Result<(), String>> = Vec::new();
+        for (j, &k) in order2.iter().enumerate() {
+            if stalled_at == Some(j) {
+                let (a, b, _h) = pipe("silent", pcfg, Rng::new(seed ^ 0x51), None);
+                let _ = raw_tx.send(Ok(b));
+                silent.push(a);
+                quiesce().await;
+            }
+            let raw_tx2 = raw_tx.clone();
+            let connector = tower::service_fn(move |_uri: http::Uri| {
+                let raw_tx = raw_tx2.clone();
+                async move {
+                    let (a, b, _h) = pipe("tls", pcfg, Rng::new(seed ^ (j as u64 + 1)), None);
+                    raw_tx.send(Ok(b)).map_err(|_| std::io::Error::new(std::io::ErrorKind::ConnectionRefused, "listener gone"))?;
+                    Ok::<_, std::io::Error>(TokioIo::new(a))
+                }
+            });
+            let mut tls = ClientTlsConfig::new().ca_certificate(Certificate::from_pem(CA1)).domain_name("verif.test");
+            tls = match k {
+                1 => tls.identity(Identity::from_pem(CLIENT1_PEM, CLIENT1_KEY)),
+                2 => tls.identity(Identity::from_pem(CLIENT3_CHAIN_PEM, CLIENT3_KEY)),
+                _ => tls,
+            };
+            let ep = Endpoint::from_static("https://verif.test:443").tls_config(tls).map_err(|e| format!("client tls_config: {}", e))?;
+            let ch = match tokio::time::timeout(Duration::from_secs(60), ep.connect_with_connector(connector)).await {
+                Err(_) => return Err(format!("peer {}: connect did not resolve within 60 virtual seconds", j)),
+                Ok(Err(e)) => {
+                    results.push(Err(format!("connect: {:?}", e)));
+                    continue;
+                }
+                Ok(Ok(ch)) => ch,
+            };
+            let mut client = VerifClient::new(ch);
+            let spec = crate::svc::CallSpec { id: format!("p{}", j), shape: crate::svc::Shape::Unary, req_msgs: vec![Msg { data: vec![j as u8; 10], seq: j as u64, tag: "peer".into() }], req_meta: vec![], req_pend: vec![], req_gaps_ms: vec![], timeout: None, pingpong: None };
+            match tokio::time::timeout(Duration::from_secs(60), crate::svc::do_call(&mut client, &spec, None)).await {
+                Err(_) => return Err(format!("peer {}: call did not resolve within 60 virtual seconds", j)),
+                Ok(view) => results.push(match (&view.call_err, &view.end) {
+                    (Some(s), _) => Err(format!("call: code {} {}", s.code, s.message)),
+                    (None, Some(Ok(()))) if view.finished => Ok(()),
+                    _ => Err("call did not finish".to_string()),
+                }),
+            }
+            if keep_open[j] {
+                open.push(client);
+            } else {
+                drop(client);
+                quiesce().await;
+            }
+        }
+        if with_shutdown {
+            let _ = sig_tx.send(());
+            quiesce().await;
+            drop(open);
+            match tokio::time::timeout(Duration::from_secs(60), &mut server_task).await {
+                Ok(_) => {}
+                Err(_) => {
+                    server_task.abort();
+                    return Err("SERVE-STUCK".to_string());
+                }
+            }
+        } else {
+            drop(open);
+            quiesce().await;
+            server_task.abort();
+        }
+        drop(silent);
+        Ok(results)
+    });
+    drop(rt);
+    let results = match result {
+        Ok(r) => r,
+        Err(e) if e == "SERVE-STUCK" => {
+            ctx.violation("serve-did-not-resolve", "60 virtual seconds after the shutdown signal, with every accepted connection closed, the serve future has not resolved (a transport connection that never began its TLS handshake is still open)".into());
+            return;
+        }
+        Err(e) => {
+            ctx.violation("hang-or-setup", e);
+            return;
+        }
+    };
+    for (j, &k) in order.iter().enumerate() {
+        match results.get(j) {
+            Some(Ok(())) => {
+                let log = handler.log(&format!("p{}", j));
+                if log.peer_certs != kinds[k].1 {
+                    ctx.violation_class("peer-certs-of-another-connection", kinds[k].0, format!("peer {} ({}) : its handler saw peer_certs = {:?}, the verified chain of that connection has {:?} certificate(s); peers before it: {:?}", j, kinds[k].0, log.peer_certs, kinds[k].1, order[..j].iter().map(|&x| kinds[x].0).collect::<Vec<_>>()));
+                }
+                ctx.count(&format!("peers.seen.{}", kinds[k].0));
+            }
+            Some(Err(e)) => ctx.violation("failed-but-must-succeed", format!("peer {} ({}) must be served (client authentication is optional and its identity is valid): {}", j, kinds[k].0, e)),
+            None => ctx.violation("hang-or-setup", format!("no result for peer {}", j)),
+        }
+    }
+    if with_shutdown {
+        ctx.count("peers.shutdown_with_silent_connection");
+    }
+    ctx.fingerprint(format!("peers|{:?}|{:?}|{:?}|{}", order, keep_open, stalled_at, with_shutdown as u8), true);
 }
